@@ -218,7 +218,6 @@ func parseLine(b []byte) (*entry, error) {
 	}
 	var e entry
 	dec := json.NewDecoder(bytes.NewReader(b))
-	dec.DisallowUnknownFields()
 	if err := dec.Decode(&e); err != nil {
 		return nil, fmt.Errorf("record is not a JSON object: %v: %q", err, b)
 	}
